@@ -450,7 +450,7 @@ impl Run {
         if !coverage.contains_key("samples") {
             coverage.insert("samples".into(), Value::Array(samples));
         }
-        if class_counts.len() <= 400 {
+        if class_counts.len() <= 3000 {
             coverage.insert("outcome_classes".into(), Value::Object(class_counts));
         }
         coverage.insert("exhaustive".into(), json!(exhaustive && caps.is_empty()));
